@@ -28,12 +28,13 @@ theorem generated_all_ops_known_c02 : taskSemKnown = true := by decide
 
 
 
+
 -- BEGIN PINS (written by bin/mkpins; do not edit by hand)
 /-- the Go functions this property's model and obligations were written against have exactly the
 pinned skeletons (SHA-256 prefix of the atom list) -/
 theorem pinned_skeletons_c02 :
     pinsOk
-    [("Scipipe.#decls", "7633eb8a74616d59"),
+    [("Scipipe.#decls", "08e57e98702ecd70"),
      ("Scipipe.FileIP_Exists", "1916709587285b24"),
      ("Scipipe.FileIP_TempFileExists", "b451ff234c47445a"),
      ("Scipipe.FileIP_TempPath", "7eba22a35232a5cb"),
